@@ -7,6 +7,7 @@ import (
 	"errors"
 	"time"
 
+	ci "github.com/libp2p/go-libp2p/core/crypto"
 	"github.com/libp2p/go-libp2p/core/host"
 	"github.com/libp2p/go-libp2p/core/network"
 	"github.com/libp2p/go-libp2p/core/peer"
@@ -90,6 +91,7 @@ func (ps *vfPeerstore) AddAddrs(p peer.ID, addrs []ma.Multiaddr, ttl time.Durati
 func (ps *vfPeerstore) AddAddr(p peer.ID, a ma.Multiaddr, ttl time.Duration) {
 	ps.AddAddrs(p, []ma.Multiaddr{a}, ttl)
 }
+func (ps *vfPeerstore) PubKey(peer.ID) ci.PubKey             { return nil }
 func (ps *vfPeerstore) LatencyEWMA(peer.ID) time.Duration   { return 0 }
 func (ps *vfPeerstore) RecordLatency(peer.ID, time.Duration) {}
 func (ps *vfPeerstore) RemovePeer(peer.ID)                   {}
